@@ -168,7 +168,8 @@ CHECKS["C06"] = dict(
     technique="property-based testing (rapid) of Router shutdown scenarios with forced schedules: the subject message is parked at a generated point of its path (hook points / handler gate / emitted inside the subscriber's Close) while 1..8 callers invoke Close; state sampled synchronously at every Close return and at Run's return",
     level_text="Generated shutdown scenarios over handler sets, CloseTimeouts, caller counts, path points and release delays run against a real Router with scripted subscribers/publishers (and a GoChannel variant). Handler progress and settlement of every emitted message are sampled in the calling goroutine at the instant each Close call returns, at Run's return and after a 50 ms window, and compared with the graceful-close contract; time-outs must surface as an error in time.",
     level_note="Trusted: the hook controller, synchronous sampling in the caller goroutine, scripted Pub/Subs. The path points are those instrumented; schedules between un-instrumented instructions are reached only by noise. 10 s liveness bounds re-confirmed once.",
-    steps=[dict(name="close", run="^TestGracefulClose$", quick=160, thorough=36000, shards_thorough=16)],
+    steps=[dict(name="close", run="^TestGracefulClose$", quick=160, thorough=36000, shards_thorough=15),
+           dict(name="close-while-starting", run="^TestCloseWhileStarting$", quick=100, thorough=20000)],
 )
 
 CHECKS["C10"] = dict(
@@ -177,7 +178,7 @@ CHECKS["C10"] = dict(
     level_text="rapid drives random lifecycle programs (AddHandler before/after Run, Run, RunHandlers repeated and concurrent, Stop, context cancel, Close, probes) against a real Router and checks a model after every step: subscriptions per handler, Running() vs subscriptions, probe handling, Stop/Stopped usability, Run's return, second Run. The Started()->Stop() window is forced by parking the starter at a hook point.",
     level_note="Trusted: the lifecycle model in c10_test.go, scripted subscribers. Shutting down while a handler added after Run was never started is outside the property (documented need to call RunHandlers).",
     steps=[dict(name="machine", run="^TestLifecycleMachine$", quick=300, thorough=480000, shards_thorough=12),
-           dict(name="forced-stop", run="^(TestStopRightAfterStarted|TestStopWithMessageInFlight|TestCloseDuringStartup)$", quick=100, thorough=20000, shards_thorough=4)],
+           dict(name="forced-stop", run="^(TestStopRightAfterStarted|TestStopWithMessageInFlight|TestCloseDuringStartup|TestStartupInterference)$", quick=100, thorough=20000, shards_thorough=4)],
 )
 
 CHECKS["C18"] = dict(
